@@ -1074,7 +1074,7 @@ fn main() {
 
     // ---- enumeration, one paused runtime per policy, 16 threads
     let next = AtomicUsize::new(0);
-    let wall_limit = Duration::from_secs(ctx.pick(100, 540));
+    let wall_limit = Duration::from_secs_f64(ctx.pick(100.0, 540.0) * Ctx::wall_scale());
     let started = std::time::Instant::now();
     let timed_out = std::sync::atomic::AtomicBool::new(false);
     let jitter_minmax = std::sync::Mutex::new((None::<u64>, None::<u64>));
